@@ -108,17 +108,17 @@ func sioSource(data []byte) io.Reader {
 	case 3:
 		return iotest.DataErrReader(r)
 	case 4:
-		return &chunkReader{r: r, n: 4096}
+		return &sioChunkReader{r: r, n: 4096}
 	}
 	return r
 }
 
-type chunkReader struct {
+type sioChunkReader struct {
 	r io.Reader
 	n int
 }
 
-func (c *chunkReader) Read(p []byte) (int, error) {
+func (c *sioChunkReader) Read(p []byte) (int, error) {
 	if len(p) > c.n {
 		p = p[:c.n]
 	}
@@ -389,5 +389,5 @@ func sioWriteFastq(rs []sioRec, typ, alpha string, enc alphabet.Encoding, qid bo
 
 var sioPhredEncodings = []alphabet.Encoding{alphabet.Sanger, alphabet.Illumina1_3, alphabet.Illumina1_5, alphabet.Illumina1_8, alphabet.Illumina1_9}
 
-// pickS returns one of the strings.
-func pickS(g *hx.Gen, xs ...string) string { return xs[g.Intn(len(xs))] }
+// sioPickS returns one of the strings.
+func sioPickS(g *hx.Gen, xs ...string) string { return xs[g.Intn(len(xs))] }
